@@ -36,8 +36,10 @@ class IkeSaController:
 
     def _get_ike_sa_by_peer_addr(self, peer_addr):
         # only an IKE_SA that is (or is about to be) usable for new exchanges: not a half-open responder one, which may
-        # never complete, nor one that has been rekeyed or deleted
-        return next(x for x in self.ike_sas if x.peer_addr == peer_addr and x.state < IkeSa.State.REKEYED
+        # never complete, nor one that has been rekeyed or is being deleted
+        closing = (IkeSa.State.DEL_IKE_SA_REQ_SENT, IkeSa.State.DEL_AFTER_REKEY_IKE_SA_REQ_SENT, IkeSa.State.REKEYED,
+                   IkeSa.State.DELETED)
+        return next(x for x in self.ike_sas if x.peer_addr == peer_addr and x.state not in closing
                     and (x.is_initiator or x.state >= IkeSa.State.ESTABLISHED))
 
     def _get_ike_sa_by_child_sa_spi(self, spi):
